@@ -124,4 +124,32 @@ let check_line (l : string) : string =
     if not ok then Printf.sprintf "ORACLE C09.soak_stalled_or_wrong_reply calls=%d" n
     else if d > 64 then Printf.sprintf "ORACLE C09.tags_not_recycled distinct=%d calls=%d" d n
     else "OK"
+  | "CV" ->
+    (* C12, client direction: Connect against a scripted Rversion, then one Write and one Read *)
+    let cm = next_n t in let wantu = next_bool t in let sm = next_n t in let srvver = next_bytes t in
+    let riounit = next_n t in let n = next_n t in
+    expect t "=>";
+    let tvm = next_n t in let tvver = next_bytes t in
+    let msize = next_n t in let dotu = next_bool t in let maxframe = next_n t in let readcount = next_int t in
+    expect t "CONNECT"; let okc = next_bool t in
+    let where = Printf.sprintf "client_msize=%s want_u=%b server_msize=%s server_version=%s riounit=%s n=%s"
+        (string_of_n cm) wantu (string_of_n sm) (String.concat "" (List.map (fun b -> String.make 1 (Char.chr (int_of_n b))) srvver)) (string_of_n riounit) (string_of_n n) in
+    let (em, edu) = clnt_connect cm wantu sm srvver in
+    let iou = open_iounit em riounit in
+    let lim = if N.ltb cm sm then cm else sm in
+    (match clnt_version_request cm wantu with
+     | Tversion_ (m0, v0) when m0 = tvm && v0 = tvver ->
+       if not okc then "ORACLE C12.client_connect_failed " ^ where
+       else if msize <> lim then Printf.sprintf "ORACLE C12.client_msize_not_min got=%s %s" (string_of_n msize) where
+       else if N.ltb lim maxframe then Printf.sprintf "ORACLE C12.client_frame_exceeds_negotiated_msize frame=%s %s" (string_of_n maxframe) where
+       else if readcount >= 0 && N.ltb lim (rread_frame_len (n_of_int readcount)) then
+         Printf.sprintf "ORACLE C12.client_asks_for_reply_above_negotiated_msize count=%d %s" readcount where
+       else if dotu <> edu then Printf.sprintf "ORACLE C12.client_dialect_wrong got=%b %s" dotu where
+       else if msize <> em then "DIFF client msize " ^ where
+       else if maxframe <> twrite_frame_len iou n then
+         Printf.sprintf "DIFF client Twrite frame impl=%s model=%s %s" (string_of_n maxframe) (string_of_n (twrite_frame_len iou n)) where
+       else if readcount < 0 || n_of_int readcount <> tread_count iou n then
+         Printf.sprintf "DIFF client Tread count impl=%d model=%s %s" readcount (string_of_n (tread_count iou n)) where
+       else "OK"
+     | _ -> "ORACLE C12.client_proposes_other_than_configured " ^ where)
   | x -> failwith ("mode clnt: bad record " ^ x)
